@@ -18,22 +18,48 @@ integer built from the suggested parameters), pairwise distinct within a study, 
 means and percentiles are exact in binary floating point and value ties cannot excuse a difference.
 This is verified on every run A (counter programs_rejected_for_ties, must be 0).
 
-Mutations of optuna this check must catch (verified on a scratch copy, see the final report; the
-violation keys seen are listed behind each):
-  M1 pruners/_percentile.py: drop `percentile = 100 - percentile` for MAXIMIZE
-       -> *|MedianPruner... no (50 is its own mirror); *|PercentilePruner|state-differs
-  M2 pruners/_successive_halving.py: `value >= competing[...]` -> `value >` for MAXIMIZE only
-       -> *|SuccessiveHalvingPruner|state-differs, *|HyperbandPruner|state-differs
-  M3 samplers/_tpe/sampler.py: _get_pruned_trial_score forgets the sign flip for MAXIMIZE
-       -> TPESampler*|<value based pruner>|params-differ
-  M4 pruners/_patient.py: nanmax -> nanmin in the MAXIMIZE branch
-       -> *|PatientPruner|state-differs
-  M5 samplers/nsgaii/_elite_population_selection_strategy.py: _rank_population ignores the
-     direction of the second objective -> NSGAIISampler|NopPruner|params-differ
-  M6 samplers/_tpe/sampler.py: _split_complete_trials_single_objective sorts ascending for both
-     directions -> TPESampler*|*|params-differ
-  M7 pruners/_wilcoxon.py: alternative hypothesis not flipped for MAXIMIZE
-       -> *|WilcoxonPruner|state-differs
+Mutations of optuna this check must catch.  All were applied one at a time to a scratch copy
+(VF_REPO) and DETECTED by the quick tier (M10: thorough tier, GPSampler tasks); behind each the new
+violation keys (beyond those of the unmodified tree):
+  M1  pruners/_percentile.py: drop `percentile = 100 - percentile` for MAXIMIZE
+        -> <every sampler>|PercentilePruner|state-differs (+ pruning-step-differs); MedianPruner is
+           rightly unaffected (50 is its own mirror)
+  M2  pruners/_successive_halving.py: `value >= competing[...]` -> `value >` for MAXIMIZE only
+        -> <every sampler>|SuccessiveHalvingPruner|state-differs, <every sampler>|HyperbandPruner|state-differs
+  M3  samplers/_tpe/sampler.py: _get_pruned_trial_score forgets the sign flip for MAXIMIZE
+        -> TPESampler(gamma=n/2)|<Median,Percentile,SHA,Hyperband,Threshold,Wilcoxon>Pruner|params-differ,
+           TPESampler|ThresholdPruner|params-differ, TPESampler(mv,group,liar)|ThresholdPruner|params-differ
+           (with the default gamma only one trial is "below" for n <= 10, hence the gamma=n/2 variant)
+  M4  pruners/_patient.py: nanmax -> nanmin (scores before patience) in the MAXIMIZE branch
+        -> <every sampler>|PatientPruner|state-differs
+  M5  samplers/nsgaii/_elite_population_selection_strategy.py: _rank_population ignores the
+      direction of the second objective
+        -> NSGAIISampler|NopPruner|3-objective|flip{1}|params-differ, ...|flip{0,1}|params-differ
+  M6  samplers/_tpe/sampler.py: _split_complete_trials_single_objective sorts ascending for both
+      directions -> TPESampler*|<every pruner>|params-differ
+  M7  pruners/_wilcoxon.py: alternative hypothesis not flipped for MAXIMIZE
+        -> <every sampler>|WilcoxonPruner|state-differs
+  M8  samplers/_tpe/sampler.py: _split_complete_trials_multi_objective without the sign vector
+        -> TPESampler*|NopPruner|{2,3}-objective|flip{*}|params-differ (all 30 keys)
+  M9  samplers/_tpe/sampler.py: _calculate_weights_below_for_multi_objective without the sign vector
+        -> TPESampler(gamma=n/2)|NopPruner|{2,3}-objective|flip{*}|params-differ
+  M10 samplers/_gp/sampler.py: `_sign = -1.0` for both directions -> GPSampler|<pruner>|params-differ
+  M11 study/_multi_objective.py: _normalize_value does not negate for MAXIMIZE
+        -> <every sampler>|NopPruner|k-objective|flip{*}|best-trial-differs, NSGA*|*|params-differ
+  M12 storages/_in_memory.py: best-trial cache compares the wrong way for MAXIMIZE
+        -> <every sampler>|<every pruner>|best-trial-differs, *|WilcoxonPruner|state-differs
+
+Findings on the unmodified tree (kept reported, root causes confirmed by monkeypatching):
+  * NSGAIISampler, multi-objective, whenever the LAST objective is flipped: _crowding_distance_sort
+    breaks ties between equal crowding distances (the boundary individuals, all inf) by the order
+    left behind by _calc_crowding_distance, i.e. ascending RAW value of the last objective, not its
+    direction-normalised value; the elite population comes out in a different order / with another
+    boundary individual and the parents drawn from it differ (first at trial 3 or 4).
+  * NSGAIIISampler, multi-objective, any flipped subset: _filter_inf/_normalize_objective_values
+    work on the raw values ("ideal point = minimum in each axis") and never look at study.directions,
+    so the niche preservation of a maximised objective is done on the un-negated axis.
+  Incidental (symmetric, not a C13 violation, counted in runs_raising): NSGAII/NSGAIII/GPSampler +
+  HyperbandPruner on a conditional search space raise KeyError/IndexError inside sample_relative.
 """
 from __future__ import annotations
 
@@ -527,7 +553,7 @@ def run(tier: str, replay: str | None = None) -> int:
     ]
     return ctx.finish(
         exhaustive=True,
-        rule="full product: 8 samplers (+GPSampler thorough) x seeds {0,1} (thorough {0..3}) x 8 pruners x every "
+        rule="full product: 9 sampler configurations (Random, TPE plain / multivariate+group+constant_liar / gamma=n/2, NSGA-II, NSGA-III, QMC, BruteForce, Grid; +GPSampler thorough) x seeds {0,1} (thorough {0..3}) x 8 pruners x every "
              "objective program (3 reporting programs per value-based pruner, all 8 single-objective programs for NopPruner, "
              "2 two-objective and 2 three-objective programs) x every base direction vector x every non-empty subset of "
              "flipped objectives, n_trials=10 (thorough also 24); states = (sampler, pruner, seed, program, base directions, "
